@@ -4,6 +4,7 @@ package main
 
 import (
 	"fmt"
+	"sort"
 	"go/constant"
 	"go/types"
 	"strings"
@@ -128,7 +129,7 @@ func (env *SpecEnv) eval(e *SExpr) Val {
 		i := env.eval(e.Args[1])
 		switch xt := x.Typ.Underlying().(type) {
 		case *types.Slice:
-			l := &Loc{Kind: LElem, Base: sArr(x.T), Idx: plus(sOff(x.T), i.T), Owner: elemKey(xt.Elem()), Typ: xt.Elem()}
+			l := &Loc{Kind: LElem, Base: sArr(x.T), Idx: cellIdx(sOff(x.T), i.T), Owner: elemKey(xt.Elem()), Typ: xt.Elem()}
 			return u.load(env.cur, l)
 		case *types.Map:
 			return env.ex.mapGet(env.cur, x, i)
@@ -492,6 +493,7 @@ func (env *SpecEnv) call(e *SExpr) Val {
 		}
 		return Val{T: ite(app(op, a.T, b.T), a.T, b.T), Typ: a.Typ}
 	case "hasPrefix", "strContains":
+		u.markPattern(arg(1).T)
 		return boolVal(app(e.Name, arg(0).T, arg(1).T))
 	case "has":
 		// has(m, k): key k in dom(m)
@@ -527,6 +529,55 @@ func (env *SpecEnv) call(e *SExpr) Val {
 		key := "A$" + elemKey(t)
 		u.keySort(key, arr2(sortOf(t)))
 		return Val{T: sel(sel(u.get(env.cur, key), arg(1).T), arg(2).T), Typ: t}
+	case "rowsKeptSinceLoopEntry":
+		// every backing array that existed at loop entry still has its loop-entry contents
+		if env.entry == nil {
+			env.fail(e, "rowsKeptSinceLoopEntry() only inside loop invariants")
+		}
+		u.keySort("next", SInt)
+		var rks []string
+		for k := range u.keySorts {
+			if strings.HasPrefix(k, "A$") {
+				rks = append(rks, k)
+			}
+		}
+		sort.Strings(rks)
+		var rcs []string
+		for _, k := range rks {
+			c, o := u.get(env.cur, k), u.get(env.entry, k)
+			if c == o {
+				continue
+			}
+			c = u.patternable(c, u.keySorts[k])
+			rcs = append(rcs, fmt.Sprintf("(forall ((x!f Int)) (! (=> (< x!f %s) (= (select %s x!f) (select %s x!f))) :pattern ((select %s x!f))))", u.get(env.entry, "next"), c, o, c))
+		}
+		return boolVal(and(rcs...))
+	case "allocCounter":
+		u.keySort("next", SInt)
+		return intVal(u.get(env.cur, "next"))
+	case "frameNew":
+		// every heap array agrees with its entry value on all objects allocated before the call
+		if env.old == nil {
+			env.fail(e, "frameNew() needs a pre-state")
+		}
+		u.keySort("next", SInt)
+		var ks []string
+		for k := range u.keySorts {
+			if strings.HasPrefix(k, "H$") || strings.HasPrefix(k, "A$") || strings.HasPrefix(k, "M$") || strings.HasPrefix(k, "MD$") || strings.HasPrefix(k, "C$") {
+				ks = append(ks, k)
+			}
+		}
+		sort.Strings(ks)
+		var cs []string
+		for _, k := range ks {
+			c, o := u.get(env.cur, k), u.get(env.old, k)
+			if c == o {
+				continue
+			}
+			c = u.patternable(c, u.keySorts[k])
+			cs = append(cs, fmt.Sprintf("(forall ((x!f Int)) (! (=> (< x!f %s) (= (select %s x!f) (select %s x!f))) :pattern ((select %s x!f))))", u.get(env.old, "next"), c, o, c))
+		}
+		return boolVal(and(cs...))
 	case "wasAllocated":
 		if env.old == nil {
 			env.fail(e, "wasAllocated() needs a pre-state")
@@ -577,6 +628,7 @@ func (env *SpecEnv) applyPure(e *SExpr, pf *PureFunc) Val {
 			if a.Typ == tNil {
 				a = Val{T: nilOf(t), Typ: t}
 			}
+			a = env.box(a, t)
 			terms = append(terms, a.T)
 		}
 		rt := env.ex.resolveType(pf.Ret, ppkg)
@@ -590,11 +642,24 @@ func (env *SpecEnv) applyPure(e *SExpr, pf *PureFunc) Val {
 	n := &SpecEnv{ex: env.ex, vars: map[string]Val{}, cur: env.cur, old: env.old, entry: env.entry, pkg: ppkg, depth: env.depth + 1}
 	for i, p := range params {
 		a := args[i]
-		if a.Typ == tNil {
-			t := env.ex.resolveType(p.Type, ppkg)
-			a = Val{T: nilOf(t), Typ: t}
+		if pt := env.ex.resolveType(p.Type, ppkg); pt != nil {
+			if a.Typ == tNil {
+				a = Val{T: nilOf(pt), Typ: pt}
+			}
+			a = env.box(a, pt)
 		}
 		n.vars[p.Name] = a
 	}
 	return n.eval(pf.Body)
+}
+
+// box converts a pointer-typed argument to an interface value when the parameter is an interface.
+func (env *SpecEnv) box(a Val, param types.Type) Val {
+	if a.Typ == nil || sortOfSafe(param) != SIface || sortOfSafe(a.Typ) != SInt {
+		return a
+	}
+	if _, ok := a.Typ.Underlying().(*types.Pointer); !ok {
+		return a
+	}
+	return Val{T: ite(eq(a.T, "0"), mkI(intLit(int64(env.u().typeID(a.Typ))), "0"), mkI(intLit(int64(env.u().typeID(a.Typ))), a.T)), Typ: param}
 }
